@@ -219,7 +219,8 @@ def x2_end_to_end(run, model, plats, lits):
             for cpp in (False, True):
                 cases = []      # (kind, text, expectation-producer)
                 if not cpp:
-                    for l in rng.sample(pool, min(len(pool), 60 if quick else 400)):
+                    ppool = [l for l in pool if l[1] < 2 ** (8 * p["sizeof_long_long"] - 1)]     # must fit the platform's long long, else no compiler value exists
+                    for l in rng.sample(ppool, min(len(ppool), 60 if quick else 400)):
                         cases.append(("literal", l[0].decode(), ("value", l[1])))
                     for t, f in SIZEOF_TYPES:
                         cases.append(("sizeof", "sizeof(%s)" % t, ("value", f if isinstance(f, int) else p[f])))
@@ -246,7 +247,8 @@ def x2_end_to_end(run, model, plats, lits):
                 path = os.path.join(wd, "x2_%s.%s" % (pname.replace("-", "_"), ext))
                 with open(path, "w") as f:
                     for i, (kind, text, exp) in enumerate(cases):     # one case per line, line i+1
-                        f.write("void f%d(void) { long long v = %s ; }\n" % (i, text))
+                        # `return`: no binary parent, so no implicit conversion is applied to the expression's value
+                        f.write("long long f%d(void) { return %s ; }\n" % (i, text))
                 rc, out = G.run_cppcheck(vlib.CPPCHECK, path, platform=pname, extra=["--std=c++17"] if cpp else [])
                 try:
                     cfgs = G.parse_dump(path + ".dump")
@@ -257,8 +259,8 @@ def x2_end_to_end(run, model, plats, lits):
                 byid = {t["id"]: t for t in toks}
                 got = {}
                 for t in toks:
-                    if t["str"] == "=" and t.get("astOperand2") and t.get("file", "").endswith(os.path.basename(path)):
-                        r = byid[t["astOperand2"]]
+                    if t["str"] == "return" and t.get("astOperand1") and t.get("file", "").endswith(os.path.basename(path)):
+                        r = byid[t["astOperand1"]]
                         got[int(t["linenr"]) - 1] = (G.known_int(r, vals), r.get("valueType-type"), r.get("valueType-sign"))
                 # model expectations in one batch
                 mlines = []
@@ -286,7 +288,7 @@ def x2_end_to_end(run, model, plats, lits):
                     run.count(stream, None, nontrivial=(pname, text), bucket=pname + ("" if want == impl[0] else ",diff"))
                     where = {"platform": pname, "language": ext, "expression": text, "cppcheck_known_value": impl[0], "expected": want,
                              "type": "%s %s" % (impl[2], impl[1]),
-                             "how": "echo 'void f(void){ long long v = %s ; }' > t.%s && %s --dump -q --platform=%s t.%s  # Known value of the initializer" % (text, ext, vlib.CPPCHECK, pname, ext)}
+                             "how": "echo 'long long f(void){ return %s ; }' > t.%s && %s --dump -q --platform=%s t.%s  # Known value of the initializer" % (text, ext, vlib.CPPCHECK, pname, ext)}
                     # the value must be representable in the expression's type on this platform
                     bits = {"char": 8, "short": 8 * p["sizeof_short"], "int": ib, "long": 8 * p["sizeof_long"], "long long": 8 * p["sizeof_long_long"]}.get(impl[1])
                     out_of_type = False
@@ -300,10 +302,6 @@ def x2_end_to_end(run, model, plats, lits):
                             run.violation("x2:%s:%s:%s" % (kind, pname, text), "%s on %s (%s): cppcheck reports Known %d, the value is %d" % (text, pname, ext, impl[0], want), where)
                     elif out_of_type:
                         key = "x2:range:%s:%s" % (pname, text)
-                        if kind == "literal" and text[:2].lower() in ("0x", "0b") or (kind == "literal" and text[:1] == "0"):
-                            key = "nondecimal-literal-typed-too-narrow"
-                        elif kind == "char" and ib < 32:
-                            key = "multichar-literal-narrow-int"
                         run.violation(key, "%s on %s: Known %d is outside the range of its type %s %s" % (text, pname, impl[0], impl[2], impl[1]), where)
                     # the specification for one-character narrow literals: the platform's plain char
                     if kind == "char" and want is not None:
@@ -312,7 +310,7 @@ def x2_end_to_end(run, model, plats, lits):
                             spec = v1 if (p["defaultSign"] == ord("u") or v1 < 128) else v1 - 256
                             run.count("x2:char-spec", None, nontrivial=(pname, text, cpp), bucket="%s,%s" % (pname, "ok" if spec == impl[0] else "diff"))
                             if spec != impl[0]:
-                                run.violation("char-literal-unsigned-char-platform" if (p["defaultSign"] == ord("u") and v1 >= 128) else "x2:charspec:%s:%s" % (pname, text),
+                                run.violation("octal-escape-char-literal-unsigned-char-platform" if (p["defaultSign"] == ord("u") and v1 >= 128 and exp[1][:1] == b"\\" and exp[1][1:2] in b"1234567") else "x2:charspec:%s:%s" % (pname, text),
                                               "%s in a .%s file on %s (plain char %s): Known %d, the value is %d" % (text, ext, pname, "unsigned" if p["defaultSign"] == ord("u") else "signed", impl[0], spec),
                                               dict(where, expected=spec, oracle="clang -target armv7-linux-gnueabihf / gcc -funsigned-char: _Static_assert('\\xff' == 255)"))
     finally:
